@@ -202,6 +202,7 @@ type TB struct {
 	memo   map[ssa.Value]*Term
 	inprog map[ssa.Value]bool
 	depth  int
+	bind   map[*ssa.Parameter]*Term // parameters of an unknown helper bound to the caller's argument terms (deepInstrs)
 }
 
 func NewTB() *TB { return &TB{memo: map[ssa.Value]*Term{}, inprog: map[ssa.Value]bool{}} }
@@ -238,6 +239,9 @@ func (b *TB) build(v ssa.Value) *Term {
 	case *ssa.Const:
 		return constTerm(v)
 	case *ssa.Parameter:
+		if t, ok := b.bind[v]; ok {
+			return t
+		}
 		return &Term{Op: "param", Name: v.Name()}
 	case *ssa.FreeVar:
 		return &Term{Op: "freevar", Name: v.Name()}
